@@ -408,6 +408,16 @@ def rule_no_unordered(ctx, rep: Report, rid="R2"):
                     return False
                 if uses and all(member_only(u) for u in uses):
                     continue
+            # handed back to the caller (directly or through a compute-once table): every caller only tests membership
+            f = enclosing(n, ast.FunctionDef)
+            if f is not None and (isinstance(p, ast.Return) or (isinstance(p, ast.Assign) and isinstance(p.targets[0], ast.Subscript)
+                                                                and any(isinstance(r.value, ast.Subscript) and unparse(r.value.value) == unparse(p.targets[0].value)
+                                                                        for r in ast.walk(f) if isinstance(r, ast.Return) and r.value is not None))):
+                calls = [c for m2 in prog.modules.values() for c in ast.walk(m2.tree) if isinstance(c, ast.Call) and (
+                    (isinstance(c.func, ast.Attribute) and c.func.attr == f.name) or (isinstance(c.func, ast.Name) and c.func.id == f.name))]
+                if calls and all(isinstance(parent(c), ast.Compare) and c in parent(c).comparators and
+                                 all(isinstance(o, (ast.In, ast.NotIn)) for o in parent(c).ops) for c in calls):
+                    continue
             bad.append(n)
         rep.add(rid, f"no unordered collection feeding output in {mi.rel}", not bad,
                 "a set is created and used beyond membership tests; its iteration order depends on "
@@ -1158,3 +1168,153 @@ def rule_lookup_validated(ctx, rep: Report, rid="V6"):
     rep.add(rid, "lookup:find_class_or_function:candidate list starts empty in every call", len(inits) >= 1 and all(
         isinstance(i.value, (ast.List, ast.ListComp)) for i in inits), f"{len(inits)} initialisation(s), {len(adds)} addition(s)", loc,
         nontrivial=False)
+
+
+# ------------------------------------------------------------------------------------------
+# memo tables: the key determines the value
+def _param_paths(prog, mi, fn, e: ast.AST, params: Set[str], skip: Set[int]) -> Set[str]:
+    """Access paths rooted at a parameter that evaluating e reads: 'p' (the whole object), 'p.a', 'p.a.b'.
+    A method call p.m() reads what m reads of its receiver when m can be resolved through p's annotation,
+    otherwise the whole object."""
+    out: Set[str] = set()
+    ann = {a.arg: a.annotation for a in fn.args.args + fn.args.kwonlyargs}
+
+    def chain(n):
+        parts = []
+        while isinstance(n, ast.Attribute):
+            parts.append(n.attr)
+            n = n.value
+        if isinstance(n, ast.Name) and n.id in params:
+            return n.id, list(reversed(parts))
+        return None, None
+
+    def visit(n):
+        if id(n) in skip:
+            return
+        if isinstance(n, (ast.Attribute, ast.Name)) and isinstance(getattr(n, "ctx", None), ast.Load):
+            root, parts = chain(n)
+            if root is not None:
+                p = parent(n)
+                if isinstance(p, ast.Call) and p.func is n and parts:
+                    # method call on the path root.parts[:-1]
+                    recv = ".".join([root] + parts[:-1])
+                    reads = None
+                    if len(parts) == 1 and ann.get(root) is not None:
+                        ci = prog.resolve_class(ann[root], mi)
+                        m = prog.find_method(ci, parts[0]) if ci is not None else None
+                        if m is not None:
+                            reads = {recv + "." + x.attr for x in ast.walk(m[1]) if _self_attr(x) and isinstance(x.ctx, ast.Load)}
+                            if any(isinstance(x, ast.Name) and x.id == "self" and not isinstance(parent(x), ast.Attribute) for x in ast.walk(m[1])):
+                                reads = None
+                    out.update(reads if reads is not None else {recv})
+                    for a in p.args:
+                        visit(a)
+                    return
+                out.add(".".join([root] + parts))
+                return
+        for c in ast.iter_child_nodes(n):
+            visit(c)
+    visit(e)
+    return out
+
+
+def _memo_sites(prog, mi, ci, fn):
+    """(table text, key expr, store node, instance-level?) for compute-once tables in fn: `T[K] = V` where the
+    function also hands the table's entry (or V) back to its caller."""
+    out = []
+    stores = [n for n in walk_no_nested(fn) if isinstance(n, ast.Subscript) and isinstance(n.ctx, ast.Store)
+              and isinstance(parent(n), ast.Assign)]
+    rets = [r.value for r in walk_no_nested(fn) if isinstance(r, ast.Return) and r.value is not None]
+    local = set(local_assignments(fn)) | set(func_params(fn))
+    for st in stores:
+        table = st.value
+        ttxt = unparse(table)
+        root = table
+        while isinstance(root, ast.Attribute):
+            root = root.value
+        if isinstance(root, ast.Name) and root.id in local and root.id != "self":
+            continue                      # a local table lives for one call only
+        if not isinstance(table, (ast.Attribute, ast.Name)):
+            continue
+        val = parent(st).value
+        handed_back = any(isinstance(r, ast.Subscript) and unparse(r.value) == ttxt for r in rets) or \
+            any(unparse(r) == unparse(val) and not isinstance(val, ast.Constant) for r in rets) or \
+            any(isinstance(r, ast.Call) and isinstance(r.func, ast.Attribute) and r.func.attr == "get" and unparse(r.func.value) == ttxt for r in rets)
+        tested = any(isinstance(c, ast.Compare) and len(c.ops) == 1 and isinstance(c.ops[0], (ast.In, ast.NotIn))
+                     and unparse(c.comparators[0]) == ttxt for c in ast.walk(fn))
+        if handed_back and tested:
+            out.append((ttxt, st.slice, st, _self_attr(table)))
+    return out
+
+
+def _check_memo(prog, mi, ci, fn):
+    res = []
+    for ttxt, key, st, inst in _memo_sites(prog, mi, ci, fn):
+        params = set(func_params(fn))
+        if inst:
+            params.discard("self")        # an instance-level table is implicitly keyed by the instance
+        keyx = inline_locals(fn, key)
+        kpaths = _param_paths(prog, mi, fn, keyx, params, set())
+        for c in ast.walk(keyx):          # id(p) names the whole object
+            if isinstance(c, ast.Call) and unparse(c.func) == "id" and c.args and isinstance(c.args[0], ast.Name):
+                kpaths.add(c.args[0].id)
+        # everything the function reads of its parameters, outside key expressions and table accesses
+        skip = set()
+        ktxt = {unparse(key), unparse(keyx)}
+        for n in ast.walk(fn):
+            if isinstance(n, ast.expr) and unparse(n) in ktxt:
+                skip.add(id(n))
+            if isinstance(n, (ast.Attribute, ast.Name)) and unparse(n) == ttxt:
+                skip.add(id(n))
+        deps: Set[str] = set()
+        for s_ in fn.body:
+            deps |= _param_paths(prog, mi, fn, s_, params, skip)
+        # locals that the key was computed from are not parameters; nothing to do
+        uncovered = sorted(d for d in deps if not any(d == k or d.startswith(k + ".") for k in kpaths))
+        res.append((ttxt, unparse(key), st, uncovered, sorted(kpaths)))
+    return res
+
+
+_MEMO_POSITIVE = '''
+class M:
+    def __init__(self):
+        self._seen = {}
+    def enums(self, namespace):
+        if namespace.name not in self._seen:
+            self._seen[namespace.name] = frozenset(m.name for m in namespace.content)
+        return self._seen[namespace.name]
+'''
+_MEMO_NEGATIVE = _MEMO_POSITIVE.replace("namespace.name", "id(namespace)")
+
+
+def rule_memo_key_complete(ctx, rep: Report, rid="R8", packages=("gtwrap/",), min_functions=100):
+    """A table that a function fills once per key and answers from afterwards (a memo / cache) must be keyed by
+    everything the stored value is computed from.  A key that is only a projection of the argument (its simple
+    name, its unqualified spelling) makes a later, different argument with the same projection receive the first
+    one's answer - the output then depends on what was processed earlier."""
+    prog = ctx.prog
+    for label, src, want in (("positive", _MEMO_POSITIVE, True), ("negative", _MEMO_NEGATIVE, False)):
+        t = ast.parse(src)
+        for p_ in ast.walk(t):
+            for c_ in ast.iter_child_nodes(p_):
+                c_._parent = p_
+        f = t.body[0].body[1]
+        got = _check_memo(prog, next(iter(prog.modules.values())), None, f)
+        if len(got) != 1 or bool(got[0][3]) != want:
+            raise AnalysisError(f"{rep.prop}/{rid}: built-in {label} example is not decided as expected ({got})")
+    n = 0
+    for mi in sorted(prog.modules.values(), key=lambda m: m.rel):
+        if not mi.rel.startswith(packages):
+            continue
+        fns = [(None, name, f) for name, f in mi.functions.items()] + \
+              [(c, f"{q}.{m}", f) for q, c in mi.classes.items() for m, f in c.methods.items()]
+        for ci, name, fn in fns:
+            n += 1
+            for ttxt, ktxt, st, uncovered, kpaths in _check_memo(prog, mi, ci, fn):
+                rep.add(rid, f"memo:{name}:{ttxt}[{ktxt}]:the key covers everything the stored value is computed from", not uncovered,
+                        f"{name} answers from {ttxt} under the key `{ktxt}` (covers {kpaths}) but what it stores is computed from "
+                        f"{uncovered} as well: a later argument with the same key and a different {uncovered[0] if uncovered else ''} "
+                        f"gets the earlier answer", f"{mi.rel}:{st.lineno}")
+    rep.add(rid, "memo:functions scanned for compute-once tables", True, f"{n} functions", "", nontrivial=False)
+    if n < min_functions:
+        raise AnalysisError(f"{rep.prop}/{rid}: only {n} functions scanned")
